@@ -68,6 +68,9 @@ def clean(traces):
             return {k: c(v) for k, v in x.items() if not k.startswith('_') and k not in ('text_full',)}
         if isinstance(x, list):
             return [c(v) for v in x]
+        if isinstance(x, int) and not isinstance(x, bool) and not -2 ** 31 < x < 2 ** 31:
+            # TLC's integers have 32 bits: a number the tool got absurdly wrong is still a wrong number after clamping
+            return 2 ** 31 - 1 if x > 0 else -2 ** 31 + 1
         return x
     return c(traces)
 
